@@ -190,6 +190,7 @@ func checkC16(c *Ctx) {
 
 	// no use of a pooled object after it was released
 	useAfterRelease(c, "USE-AFTER-RELEASE", []string{pParser, pRT, pRT2, pEngine, pFuncs, pInput})
+	poolPairing(c, "USE-AFTER-RELEASE")
 
 	// pooled task does not escape
 	for _, spec := range []struct{ pkg, typ, m string }{{pRT, "Script", "Run"}, {pRT, "Script", "RefRun"}, {pRT, "Script", "Check"}} {
